@@ -33,7 +33,9 @@ MANIFEST = {
             'decision streams until every conditional jump was seen taken and '
             'not taken and every instruction ran (measured; uncoverable edges '
             'are listed as inconclusive edges). Edge-complete per program plus '
-            'sampled path combinations, not all paths.',
+            'sampled path combinations, not all paths.'
+            ' In 30 % of the programs unused value macros are defined ins'
+            'ide branch, loop and routine bodies.',
     'note': 'Trusted: vmmon automata, reference interpreter for the marker '
             'trace. Routine definitions nested in if/repeat bodies are taken '
             'as compile-time definitions (defined whether or not control '
